@@ -66,6 +66,8 @@ class Recorder:
                 self.samples_by_label[key] = 1
                 self.n_samples += 1
                 rec["case"] = case
+        if "case" not in rec:
+            rec["c"] = case  # every executed case is kept, in order: lets the runner rebuild a shard's history (state leaks)
         self.f.write(dumps(rec) + "\n")
         self.f.flush()
         return new_bucket
